@@ -83,6 +83,7 @@ func runC08(c *core.Ctx) {
 	c.Rule("R5", "readiness latch", 3)
 	c.Rule("R6", "single actor: exported lifecycler methods reach a KV CAS only through the actor loop", 28)
 	c.Rule("R7", "published token lists are sorted", 12)
+	c.Rule("R10", "every waiting phase of both lifecyclers heartbeats from a ticker it creates itself with the configured period", 5)
 	c.Rule("R9", "token top-up: request (target − held) tokens and append them to the held list, so a fresh join ends with the configured count and inherited tokens are kept", 5)
 	c.Rule("R8", "tokens inherited from the ring are kept: a heartbeat re-publishes the ring entry's tokens when the entry exists, the remembered ones only when it is missing", 6)
 	pkg := c.Prog.Pkg("ring")
@@ -105,6 +106,7 @@ func runC08(c *core.Ctx) {
 	c08Sorted(c, pkg, fns)
 	c09HeartbeatAs(c, "R8")
 	c09TopUpAs(c, "R9")
+	c08HeartbeatTickers(c)
 	c08SingleActor(c, pkg, fns)
 }
 
@@ -790,5 +792,64 @@ func c08SingleActor(c *core.Ctx, pkg *packages.Package, fns []*an.Fn) {
 	}
 	if n < 20 {
 		c.Undec("R6", "exported", pkg.Syntax[0].Pos(), fmt.Sprintf("only %d exported lifecycler methods found", n))
+	}
+}
+
+// c08HeartbeatTickers (R10): each phase in which a lifecycler waits in a select (classic: loop, stopping;
+// basic: waitStableTokens, running, stopping) receives its heartbeat ticks from
+// newDisableableTicker(cfg.HeartbeatPeriod) created in that very function, and the tick's branch
+// performs the heartbeat. A ticker kept in a field and created by another phase leaves the earlier
+// phases without heartbeats (a receive from a nil channel never fires).
+func c08HeartbeatTickers(c *core.Ctx) {
+	pkg := c.Prog.Pkg("ring")
+	want := map[string]string{
+		"(*Lifecycler).loop":                  "updateConsul",
+		"(*Lifecycler).stopping":              "updateConsul",
+		"(*BasicLifecycler).waitStableTokens": "heartbeat",
+		"(*BasicLifecycler).running":          "heartbeat",
+		"(*BasicLifecycler).stopping":         "heartbeat",
+	}
+	for name, beat := range want {
+		fn := an.FindFunc(pkg, name)
+		if fn == nil {
+			c.Miss("R10", "func="+name, "not found")
+			continue
+		}
+		c.Analysed(fn.String())
+		found, detail := false, ""
+		for _, f := range append([]*an.Fn{fn}, fn.AllLits()...) {
+			f := f
+			f.InspectShallow(func(n ast.Node) bool {
+				cc, ok := n.(*ast.CommClause)
+				if !ok || cc.Comm == nil {
+					return true
+				}
+				ch := commRecv(cc.Comm)
+				if ch == nil {
+					return true
+				}
+				beats := false
+				for _, st := range cc.Body {
+					ast.Inspect(st, func(m ast.Node) bool {
+						if call, ok := m.(*ast.CallExpr); ok {
+							if o := an.Callee(f.Info(), call); o != nil && o.Name() == beat {
+								beats = true
+							}
+						}
+						return true
+					})
+				}
+				if !beats {
+					return true
+				}
+				cn := f.Canon(ch)
+				detail = cn
+				if cn == "newDisableableTicker(recv.cfg.HeartbeatPeriod)#1" {
+					found = true
+				}
+				return true
+			})
+		}
+		c.Check(found, "R10", "func="+name, fn.Pos(), fmt.Sprintf("the branch that calls %s receives from a ticker created in this function with the configured heartbeat period (channel: %s)", beat, detail), 1)
 	}
 }
